@@ -93,6 +93,7 @@ import Apko.Proofs.Lemmas.CacheStep
 import Apko.Proofs.Lemmas.CacheLive
 import Apko.Proofs.Lemmas.CacheSig
 import Apko.Proofs.Lemmas.CacheGlue
+import Apko.Proofs.Lemmas.CacheRepos
 import Apko.Generated.Cache
 import Apko.Generated.CacheGlue
 
@@ -1316,9 +1317,148 @@ example : MemoKeyInj (cfgReal keysDir) ∧ (cfgReal keysDir).copyErrKept = true 
       .publish 0 3 30, .index 2 true 0 false, .indexDirect 0, .offline 0] {} :=
   ⟨fun _ _ h => h, rfl, legalB_sound _ _ _ (by decide)⟩
 
+/-! #### several repositories: which of them an offline build resolves over (`GetRepositoryIndexes`) -/
+
+/-- the suite's entry directories with several repositories: the index of repository `r` is URL `50·r` and has the
+entry directory of the same number (`cachePathFromURL` keeps the host), every key URL directory 1 -/
+def reposDir : Url → Dir := fun u => if u % 50 = 0 then u else 1
+
+/-- the full statement (C19, "offline builds either reproduce that image from the cache or fail with an error") for
+the set of repositories: when the offline build over remote repositories gets its indexes at all, it gets one for
+EVERY configured repository, in the configured order — as the build without the cache does (`directIndexes`) -/
+def OfflineComplete (rule : SkipRule) (cfg : Cfg) : Prop :=
+  ∀ evs, Legal cfg evs {} → ∀ (remote : Url → Bool) (loc : Url → OffIdx) (repos : List Url) (l : List (Url × Body)),
+    (∀ u, u ∈ repos → remote u = true) →
+    offlineIndexes rule cfg (run cfg evs {}) remote loc repos = some l → l.map (·.1) = repos
+
+/-- it holds for the repaired rule (`skipReal`, tied to the condition in the code by `tie_index_skip_rule`), for
+every configuration -/
+theorem offline_complete (cfg : Cfg) : OfflineComplete skipReal cfg :=
+  fun _ _ _ _ repos l hall h => offlineIndexes_remote_complete repos l hall h
+
+/-- **an offline build that succeeds used, for EVERY configured remote repository, a stored index revision**: after
+any legal history, when `GetRepositoryIndexes` of an offline build returns indexes, then every configured remote
+repository (whose entry directory is its own: `cachePathFromURL` is injective) contributed an index, that index is the
+COMPLETE body of an advertised entry of its entry directory, and the server once served that body under the
+repository's index URL — no remote repository is ever dropped, local ones may be (`offline_local_missing_skipped`) -/
+theorem offline_uses_every_remote_repository (cfg : Cfg) (hk : MemoKeyInj cfg) (hce : cfg.copyErrKept = true)
+    (hskip : cfg.offlineSkipsTmp = true) (evs : List Ev) (hl : Legal cfg evs {})
+    (remote : Url → Bool) (loc : Url → OffIdx) (repos : List Url) (l : List (Url × Body))
+    (hown : ∀ u, u ∈ repos → remote u = true → DirOwn cfg u)
+    (h : offlineIndexes skipReal cfg (run cfg evs {}) remote loc repos = some l) :
+    ∀ u, u ∈ repos → remote u = true →
+      ∃ b, (u, b) ∈ l ∧ (∃ e, (u, e, b) ∈ (run cfg evs {}).srv) ∧
+        ∃ f, f ∈ (run cfg evs {}).files ∧ f.dir = cfg.dirOf u ∧ f.etag.isSome = true ∧ f.body = b ∧ f.complete = true := by
+  intro u hu hr
+  obtain ⟨b, hb, hi⟩ := offlineIndexes_every_remote repos l h u hu hr
+  have hoff := (offlineIndex_index hi).1
+  have hinv := run_inv hk hce evs {} (inv_empty cfg) hl
+  obtain ⟨-, e, he⟩ := Glue.offline_authentic_partial hskip hinv u (hown u hu hr) b true hoff
+  refine ⟨b, hb, ⟨e, he⟩, ?_⟩
+  unfold fetchOffline at hoff
+  cases hlast : ((run cfg evs {}).files.filter (offlineCand cfg (cfg.dirOf u))).getLast? with
+  | none => rw [hlast] at hoff; cases hoff
+  | some f =>
+    rw [hlast] at hoff
+    simp only [Option.map_some, Option.some.injEq, Prod.mk.injEq] at hoff
+    have hm := List.mem_of_getLast? hlast
+    rw [List.mem_filter] at hm
+    obtain ⟨hfm, hcand⟩ := hm
+    unfold offlineCand at hcand
+    simp only [hskip, Bool.not_true, Bool.or_false, Bool.and_eq_true, decide_eq_true_eq] at hcand
+    exact ⟨f, hfm, hcand.1, hcand.2, hoff.1, hoff.2⟩
+
+/-- the behaviour for LOCAL repositories is what it was: one whose index file does not exist is skipped -/
+theorem offline_local_missing_skipped (rule : SkipRule) (cfg : Cfg) (s : St) (remote : Url → Bool) (loc : Url → OffIdx)
+    (u : Url) (rest : List Url) (hlocal : remote u = false) (hm : loc u = .notExist) :
+    offlineIndexes rule cfg s remote loc (u :: rest) = offlineIndexes rule cfg s remote loc rest :=
+  offlineIndexes_local_missing rule cfg s remote loc u rest hlocal hm
+
+/-- the repair changes nothing where every configured remote repository has an entry directory (was cached once) -/
+theorem offline_rules_agree_when_cached (cfg : Cfg) (s : St) (remote : Url → Bool) (loc : Url → OffIdx) (repos : List Url)
+    (h : ∀ u, u ∈ repos → remote u = true → s.dirExists (cfg.dirOf u) = true) :
+    offlineIndexes .anyNotExist cfg s remote loc repos = offlineIndexes .localNotExist cfg s remote loc repos :=
+  offlineIndexes_rules_agree repos h
+
+/-- process 1 fills the cache over repository A (URL 0); repository B (URL 50, never cached) is configured afterwards -/
+def neverCachedHistory : List Ev := [.publish 0 1 10, .publish 50 2 20, .index 1 true 0 false, .exit]
+
+/-- **the pinned expression** `errors.Is(err, fs.ErrNotExist)` (finding F19f, fixed) FAILS the full statement: the
+offline build over [A, B] succeeds with A's index alone, while the build without the cache resolves over both (B
+offers the newer version): another image, no error.  Under the repaired rule the same build fails. -/
+theorem offline_dropped_never_cached_repository_before_fix : ¬ OfflineComplete .anyNotExist (cfgReal reposDir) := by
+  intro h
+  have hl : Legal (cfgReal reposDir) neverCachedHistory {} := legalB_sound _ _ _ (by decide)
+  have := h neverCachedHistory hl (fun _ => true) (fun _ => .notExist) [0, 50] [(0, 10)] (by intro u _; rfl) (by decide)
+  revert this
+  decide
+
+theorem never_cached_repository_witness :
+    offlineIndexes .anyNotExist (cfgReal reposDir) (run (cfgReal reposDir) neverCachedHistory {}) (fun _ => true) (fun _ => .notExist) [0, 50]
+      = some [(0, 10)] ∧
+    directIndexes (run (cfgReal reposDir) neverCachedHistory {}) (fun _ => true) (fun _ => .notExist) [0, 50]
+      = some [(0, 10), (50, 20)] ∧
+    offlineIndexes skipReal (cfgReal reposDir) (run (cfgReal reposDir) neverCachedHistory {}) (fun _ => true) (fun _ => .notExist) [0, 50]
+      = none ∧
+    -- once B was cached the offline build reproduces the build without the cache
+    offlineIndexes skipReal (cfgReal reposDir) (run (cfgReal reposDir) (neverCachedHistory ++ [.index 2 true 50 false, .exit]) {})
+      (fun _ => true) (fun _ => .notExist) [0, 50] = some [(0, 10), (50, 20)] := by decide
+
+/-- the hypotheses of `offline_uses_every_remote_repository` are satisfiable by the code's configuration, a
+non-trivial history and two repositories with a successful offline build -/
+example : MemoKeyInj (cfgReal reposDir) ∧ (∀ u, u ∈ [0, 50] → DirOwn (cfgReal reposDir) u) ∧
+    Legal (cfgReal reposDir) (neverCachedHistory ++ [.index 2 true 50 false, .exit]) {} ∧
+    (offlineIndexes skipReal (cfgReal reposDir) (run (cfgReal reposDir) (neverCachedHistory ++ [.index 2 true 50 false, .exit]) {})
+      (fun _ => true) (fun _ => .notExist) [0, 50]).isSome = true := by
+  refine ⟨fun _ _ h => h, ?_, legalB_sound _ _ _ (by decide), by decide⟩
+  intro u hu u2 h2
+  simp only [List.mem_cons, List.not_mem_nil, or_false] at hu
+  simp only [cfgReal, reposDir] at h2
+  rcases hu with rfl | rfl <;> (split at h2 <;> simp_all <;> omega)
+
+/-! #### a response without an ETag; a validator that does not identify the body -/
+
+/-- without an ETag nothing is looked up and nothing is stored: the answer is the build-without-the-cache's, the
+state does not change — whatever else (`Last-Modified`) the response carries -/
+theorem noetag_transparent (s : St) (u : Url) : (fetchNoEtag s u).2 = direct s u ∧ (fetchNoEtag s u).1 = s := ⟨rfl, rfl⟩
+
+/-- what the tie `tie_etag_is_the_only_validator` guards: a value that does NOT identify the body used as the name of
+the entry (`Last-Modified` has one-second resolution: two index revisions published within one second, or with a
+clamped mtime, carry the same value) — the second process is answered with the first revision from the entry the
+first process left, while the build without the cache gets the second revision.  In the model this server is outside
+`Legal` (one name, two bodies of one URL): the transparency theorems need the name to identify the body. -/
+theorem weak_validator_serves_stale :
+    answers (cfgReal keysDir) [.publish 0 7 10, .index 1 true 0 false, .exit, .publish 0 7 20, .index 2 true 0 false] {}
+      = [some (10, true), some (10, true)] ∧
+    direct (run (cfgReal keysDir) [.publish 0 7 10, .index 1 true 0 false, .exit, .publish 0 7 20] {}) 0 = some (20, true) ∧
+    legalB (cfgReal keysDir) [.publish 0 7 10, .index 1 true 0 false, .exit, .publish 0 7 20, .index 2 true 0 false] {} = false := by
+  decide
+
 end glue
 
 /-! #### ties of the glue model -/
+
+/-- the condition under which `GetRepositoryIndexes` drops a repository, as a rule of the model -/
+def skipRuleOfCond (cond : String) : Option CacheGlue.SkipRule :=
+  if cond = "errors.Is(err, fs.ErrNotExist)" then some CacheGlue.SkipRule.anyNotExist
+  else if cond = "!remote && errors.Is(err, fs.ErrNotExist)" then some CacheGlue.SkipRule.localNotExist
+  else none
+
+/-- `GetRepositoryIndexes`: the condition of the `if` that drops a repository is `Model.skipReal`; `remote` is the very
+test by which `indexCache.get` sends a repository through the (caching) transport; the branch logs and returns nil;
+offline, the error of a missing entry directory wraps `os.ReadDir`'s (`%w`: `errors.Is(err, fs.ErrNotExist)` sees it) -/
+theorem tie_index_skip_rule : skipRuleOfCond Generated.cacheglue_indexSkipCond = some CacheGlue.skipReal ∧
+    Generated.cacheglue_indexSkipDefs =
+      ["remote := strings.HasPrefix(repoURL, \"https://\") || strings.HasPrefix(repoURL, \"http://\")"] ∧
+    Generated.cacheglue_indexSkipBody = ["clog.WarnContextf(…)", "return nil"] ∧
+    Generated.cacheglue_indexRemoteTest = "strings.HasPrefix(u, \"https://\") || strings.HasPrefix(u, \"http://\")" ∧
+    Generated.cacheglue_offlineListErr =
+      "des, err := os.ReadDir(cacheDir); err != nil => return nil, fmt.Errorf(\"listing %q for offline cache: %w\", cacheDir, err)" :=
+  ⟨by decide, rfl, rfl, rfl, rfl⟩
+
+/-- `etagFromResponse` reads the `ETag` header and nothing else: no other validator (`Last-Modified`,
+`Content-Length`, …) may name an entry of the cache or a row of the table of parsed indexes -/
+theorem tie_etag_is_the_only_validator : Generated.cacheglue_etagHeaders = ["etag"] := rfl
 
 /-- the HEAD memo (`load` / `store`) and the HEAD singleflight are keyed by the URL's cache file — `Cfg.memoKey` is
 the identity on URLs (`cachePathFromURL` of the request URL, handed down by `RoundTrip` and `fetchAndCache`) -/
